@@ -13,15 +13,19 @@ PID = "C28"
 TARGET_PREFIXES = ("geometry/intersections",)
 
 META = {
-    "explanation": "intersections.segments_2d and segments_3d executed on segments whose 8 / 12 coordinates are symbolic "
-                   "integers of a box; the code's own tolerance tests fork the paths; on every path the result (None / "
-                   "point / segment and its coordinates) is compared with the exact classification written directly "
-                   "in terms of cross and dot products of the integer data; both argument orders",
-    "assumptions": ["floats as exact reals", "integer coordinates in [-B, B] (B stated per shard)",
-                    "both segments have positive length"],
-    "stubs": ["np.sqrt(x): fresh r >= 0 with r*r == x (segments_2d lengths)"],
+    "explanation": "intersections.segments_2d and segments_3d executed on segments whose direction vectors are concrete "
+                   "(explicit case split over all integer directions of the box) and whose positions are symbolic "
+                   "integers; the code's own tolerance tests fork the paths; on every path the result (None / point / "
+                   "segment and its coordinates) is compared with the exact classification written directly in terms "
+                   "of cross and dot products of the integer data; calls with the arguments in the other order are the "
+                   "cases (d2, d1), and the exact classification is shown to be independent of the order",
+    "assumptions": ["floats as exact reals", "integer coordinates in [-B, B]: B = 2 (2-d) / 1 (3-d) in the quick tier, "
+                    "4 / 2 in the thorough tier", "both segments have positive length"],
+    "stubs": ["np.sqrt of a concrete integer (segment lengths in segments_2d): fresh r >= 0 with r*r equal to it"],
     "outside": ["non-integer coordinates / near-degenerate configurations inside the tolerance band",
-                "coordinates outside the box"],
+                "coordinates outside the box",
+                "a fully symbolic treatment of the directions (mixed integer/real nonlinear arithmetic: neither z3 nor "
+                "cvc5 answered a single path query within 15 minutes)"],
 }
 
 
@@ -90,14 +94,6 @@ def oracle(s1, e1, s2, e2):
     return none, point, seg, A, Bp
 
 
-def _ivar(ctx, name, B):
-    """Integer-valued coordinate as a REAL term restricted to {-B..B} (keeps the queries in pure
-    nonlinear real arithmetic, which z3 decides far better than mixed integer/real)."""
-    x = ctx.real(name, -B, B)
-    ctx.assume(z3.Or([x.e == k for k in range(-B, B + 1)]))
-    return x
-
-
 def harness(ctx, shard, d1, d2, order):
     import porepy as pp
 
@@ -146,7 +142,7 @@ def harness(ctx, shard, d1, d2, order):
         ctx.check("result-shape", r.ndim == 2 and r.shape[0] == dim and r.shape[1] in (1, 2), case)
         if r.ndim == 2 and r.shape[0] == dim and r.shape[1] == 1:
             ctx.check("point-when-exact-arithmetic-finds-a-point", point, case)
-            ctx.check("point-coordinates-exact", z3.And([lift(r[k, 0]) == A[k] for k in range(dim)]), case, known=None)
+            ctx.check("point-coordinates-exact", z3.And([lift(r[k, 0]) == A[k] for k in range(dim)]), case)
         elif r.ndim == 2 and r.shape[0] == dim and r.shape[1] == 2:
             ctx.check("segment-when-exact-arithmetic-finds-a-segment", seg, case)
             same = z3.And([lift(r[k, 0]) == A[k] for k in range(dim)] + [lift(r[k, 1]) == Bp[k] for k in range(dim)])
